@@ -612,8 +612,14 @@ def main():
         model_wall = time.time() - t0
 
     mism = []
+    outside_domain = 0
+    in_domain = getattr(H, "in_model_domain", None)
     if model_out is not None:
         for idx, (it, mo) in enumerate(zip(impl, model_out)):
+            if in_domain is not None and not in_domain(cases[idx]):
+                # the model states a precondition these cases do not meet (documented in the harness); the oracle still judges them
+                outside_domain += 1
+                continue
             if it[0] != mo:
                 mism.append(idx)
     # 6. confirmation inside Coq: corpus + mismatches + random sample
@@ -781,6 +787,7 @@ def main():
             "samples": samples,
             "corpus_cases": n_corpus,
             "model_impl_mismatches": len(mism),
+            "cases_outside_model_domain": outside_domain,
             "confirmed_in_coq": len(confirm_idx),
             "coq_vs_extraction_disagreements": len(coq_disagree),
             "oracle_violations": len(violations),
